@@ -217,7 +217,7 @@ func main() {
 					canon := refage.Armor(r.data)
 					if refage.NormaliseArmor(string(text)) != canon {
 						c.Fail("noncanonical-armor-accepted/"+classify(string(text)), id, "accepted text does not re-armor to itself (beyond CRLF / outer whitespace tolerances)", det())
-					} else if !ref.Accepted {
+					} else if !ref.Accepted && !ref.LimitDependent {
 						c.Fail("noncanonical-armor-accepted/reference-rejects", id, "reference recogniser rejects: "+ref.Reason, det())
 					} else if !bytes.Equal(r.data, ref.Data) {
 						c.Fail("armor-data-mismatch", id, "decoded bytes differ from reference", det())
@@ -230,7 +230,7 @@ func main() {
 					if !errors.As(r.err, &ae) {
 						c.Fail("armor-error-type", id, "failure is not an *armor.Error: "+r.err.Error(), det())
 					}
-					if ref.Accepted {
+					if ref.Accepted && !ref.LimitDependent {
 						c.Fail("canonical-armor-rejected", id, "reference accepts, implementation fails: "+r.err.Error(), det())
 					} else if len(r.data) > len(ref.Data) || !bytes.Equal(r.data, ref.Data[:len(r.data)]) {
 						c.Fail("armor-released-bytes", id, "bytes released before the error are not a prefix of the strict decoder's output", det())
